@@ -1,5 +1,6 @@
 import Ark.Proofs.Par
 import Mathlib.Data.ZMod.Basic
+import Mathlib.Algebra.Field.ZMod
 import Mathlib.Algebra.Field.Rat
 import Mathlib.Tactic.NormNum
 /-
@@ -15,6 +16,8 @@ import Mathlib.Tactic.NormNum
 -/
 namespace Ark.C14
 open Ark Ark.Par
+
+set_option linter.unusedSectionVars false
 
 variable {F : Type} [Field F] [DecidableEq F]
 
@@ -107,6 +110,9 @@ theorem distributePowers_chunks (k : Nat) (hk : 1 ≤ k) (coeffs : List F) (g c 
 
 example : distributePowersPar 3 ([1, 2, 3, 4] : List (ZMod 17)) 2 5 = [5, 3, 9, 7] := by
   rw [distributePowersPar_spec]; decide +kernel
+example : distributePowersPar 64 ([1, 2, 3] : List ℚ) 2 5 = [5, 20, 60] := by
+  rw [distributePowersPar_spec]; norm_num [List.range_succ]
+example : distributePowersPar 1 ([1, 2, 3] : List (ZMod 17)) 2 5 = [5, 3, 9] := by decide +kernel
 -- 2500 entries with `T = 1, 3, 64`: chunks of 2500 / 1024 / 1024 (three chunks, last one short)
 example (l : List (ZMod 17)) (_ : l.length = 2500) :
     distributePowersPar 3 l 3 2 = distributePowersSerial l 3 2 :=
@@ -144,10 +150,14 @@ theorem evaluatePar_eq_sum (T : Nat) (coeffs : List F) (x : F) :
 example : evaluatePar 3 ((List.range 40).map (Nat.cast : ℕ → ZMod 17)) 3
     = evaluateSerial ((List.range 40).map (Nat.cast : ℕ → ZMod 17)) 3 :=
   evaluatePar_eq_serial 3 _ 3
-example : evaluatePar 3 ((List.range 40).map (Nat.cast : ℕ → ZMod 17)) 3 = 16 := by decide +kernel
-example : hornerEvaluate ((List.range 40).map (Nat.cast : ℕ → ZMod 17)) 3 = 16 := by decide +kernel
+example : evaluatePar 3 ((List.range 40).map (Nat.cast : ℕ → ZMod 17)) 3 = 7 := by decide +kernel
+example : hornerEvaluate ((List.range 40).map (Nat.cast : ℕ → ZMod 17)) 3 = 7 := by decide +kernel
 example : evaluatePar 64 ([0, 0, 0] : List (ZMod 17)) 3 = 0 := by decide +kernel   -- zero polynomial
 example : evaluatePar 64 ([5, 1, 2] : List (ZMod 17)) 0 = 5 := by decide +kernel   -- `x = 0`
+example : hornerChunked 1 ((List.range 40).map (Nat.cast : ℕ → ZMod 17)) 3 = 7 := by
+  decide +kernel
+example : hornerChunked 64 ((List.range 40).map (Nat.cast : ℕ → ZMod 17)) 3 = 7 := by
+  decide +kernel
 example : evaluatePar 1 ([1, 2, 3] : List ℚ) 2 = 17 := by
   rw [evaluatePar_eq_sum]; norm_num [Finset.sum_range_succ]
 
@@ -263,10 +273,17 @@ example : parallelFft sfftNaive ([1, 2, 3, 4, 5, 6, 7, 8] : List (ZMod 17)) 2 3 
     = .ok (naiveDft [1, 2, 3, 4, 5, 6, 7, 8] 2) :=
   parallelFft_eq_naiveDft sfftNaive _ 2 3 1 (by decide) (by decide) (by decide) (fun _ _ => rfl)
 example : parallelFft sfftNaive ([1, 2, 3, 4, 5, 6, 7, 8] : List (ZMod 17)) 2 3 1
-    = .ok [2, 12, 11, 6, 13, 12, 15, 5] := by decide +kernel
+    = .ok [2, 8, 14, 6, 13, 3, 12, 1] := by decide +kernel
 example : bestFft 3 sfftNaive ([1, 2, 3, 4, 5, 6, 7, 8] : List (ZMod 17)) 2 3
-    = .ok [2, 12, 11, 6, 13, 12, 15, 5] := by decide +kernel
+    = .ok [2, 8, 14, 6, 13, 3, 12, 1] := by decide +kernel
 example : log2Floor 3 < 3 := by decide
+example : bestFft 3 sfftNaive ([1, 2, 3, 4, 5, 6, 7, 8] : List (ZMod 17)) 2 3
+    = sfftNaive [1, 2, 3, 4, 5, 6, 7, 8] 2 3 :=
+  bestFft_eq_serial 3 _ _ _ _ (fun _ => ⟨by decide, by decide, fun _ _ => rfl, rfl⟩)
+example : ∃ r, parallelFft sfftNaive ([1, 2, 3, 4, 5, 6, 7, 8] : List (ZMod 17)) 5 3 2 = .ok r ∧
+    r.length = 8 :=   -- `ω = 5` is not an 8-th root of unity: still no panic
+  parallelFft_ok sfftNaive _ 5 3 2 (by decide) (by decide)
+    (fun b hb => ⟨_, rfl, by rw [naiveDft_length, hb]⟩)
 -- a size that is not a power of two: 12 points over `ZMod 13` (`2` has order 12), 4 cosets of 3
 example : parallelFft sfftNaive ((List.range 12).map (Nat.cast : ℕ → ZMod 13)) 2 2 2
     = .ok (naiveDft ((List.range 12).map (Nat.cast : ℕ → ZMod 13)) 2) :=
@@ -274,16 +291,22 @@ example : parallelFft sfftNaive ((List.range 12).map (Nat.cast : ℕ → ZMod 13
     (fun _ _ => rfl)
 example : SerialFftSpec 3 (sfftNaive (F := ZMod 17)) 8 2 3 :=
   serialFftSpec_naive 3 8 2 3 (by decide) (by decide)
-example : mixedFftPar 3 sfftNaive
-    ({ size := 8, logSizeOfGroup := 3, sizeInv := 15, groupGen := 2, groupGenInv := 9,
-       offset := 3, offsetInv := 6 } : MixedDomain (ZMod 17)) [1, 2, 3]
-    = mixedFftSerial sfftNaive _ [1, 2, 3] :=
-  mixedFftPar_eq_serial 3 _ _ _ (serialFftSpec_naive 3 8 2 3 (by decide) (by decide))
-example : mixedIfftPar 64 sfftNaive
-    ({ size := 8, logSizeOfGroup := 3, sizeInv := 15, groupGen := 2, groupGenInv := 9,
-       offset := 3, offsetInv := 6 } : MixedDomain (ZMod 17)) [1, 2, 3]
-    = mixedIfftSerial sfftNaive _ [1, 2, 3] :=
+/-- the 8-point coset domain `3·⟨2⟩` of `ZMod 17` -/
+def dom17 : MixedDomain (ZMod 17) :=
+  { size := 8, logSizeOfGroup := 3, sizeInv := 15, groupGen := 2, groupGenInv := 9,
+    offset := 3, offsetInv := 6 }
+
+example : mixedFftPar 3 sfftNaive dom17 [1, 2, 3] = mixedFftSerial sfftNaive dom17 [1, 2, 3] :=
+  mixedFftPar_eq_serial 3 _ _ _
+    (serialFftSpec_naive 3 8 (2 : ZMod 17) 3 (by decide) (by decide))
+example : mixedIfftPar 3 sfftNaive dom17 [1, 2, 3] = mixedIfftSerial sfftNaive dom17 [1, 2, 3] :=
+  mixedIfftPar_eq_serial 3 _ _ _
+    (serialFftSpec_naive 3 8 (9 : ZMod 17) 3 (by decide) (by decide))
+-- `T = 64`: `log_n = 3 ≤ 6`, the serial branch
+example : mixedIfftPar 64 sfftNaive dom17 [1, 2, 3] = mixedIfftSerial sfftNaive dom17 [1, 2, 3] :=
   mixedIfftPar_eq_serial 64 _ _ _ (fun h => absurd h (by decide))
+example : mixedFftPar 3 sfftNaive dom17 [1, 2, 3] = .ok [0, 2, 15, 9, 5, 12, 1, 15] := by
+  decide +kernel
 
 /-! ## 6. `compute_powers` (`#[allow(unused)]`, no caller): drops the tail -/
 
@@ -317,7 +340,7 @@ theorem computePowersPar_length (T size : Nat) (g : F) (h : 128 ≤ size) :
   rw [computePowersPar_large T size g h, computePowersSerial_length]
 
 example : (computePowersPar 2 129 (3 : ZMod 17)).length = 128 := by
-  rw [computePowersPar_length 2 129 3 (by omega)]
+  rw [computePowersPar_length 2 129 3 (by omega)]; decide
 example : computePowersPar 3 384 (3 : ZMod 17) = computePowersSerial 384 3 :=
   computePowersPar_eq_of_dvd 3 384 3 (by omega) (by decide)
 example : computePowersPar 64 100 (3 : ZMod 17) = computePowersSerial 100 3 :=
